@@ -1,6 +1,8 @@
-"""Implementation side of C12 (stream `alias-types`): construct / parse / copy / update / nested-write histories
-on the REAL container and data-type classes; after every operation the sharing graph (id() of every nested
-mutable object reachable from every class default and every instance) and the values are recorded.
+"""Implementation side of C12 (stream `alias-types`): construct / parse / copy / update / nested-write / in-place
+list operation (append, pop, clear) histories on the REAL container and data-type classes; after every operation
+the sharing graph (id() of every nested mutable object reachable from every class default, every default-ARGUMENT
+object of a method and every instance) and the values are recorded.  A member that IS a default-argument object is
+described to the model as ['A', k] (XArg).  The identity-only streams live in c12b_impl.py.
 
 stdin : {"discover": true} | {"cases": [{"cls": key, "seed": n, "ops": [[kind, a, b, c], ...]}]}
 stdout: {"classes": [...], "sites": [...]} | {"traces": [...]}"""
@@ -17,6 +19,10 @@ import xs_lib as X
 from sdc11073.xml_types import xml_structure as xs
 
 req = json.load(sys.stdin)
+# the reader produces xml_utils.QName (which can be deep-copied); values appended by this driver must be the same kind
+from sdc11073 import xml_utils as _xu  # noqa: E402
+_orig_qname = G.Gen.qname
+G.Gen.qname = lambda self: _xu.QName(_orig_qname(self).text)
 CLASSES = {}
 for _c in X.all_classes():
     try:
@@ -55,6 +61,8 @@ ARG_CLASSES = {k for k, _, _ in ARGSITES}
 ROOTS = [(s[0], s[1], s[3]) for s in SITES] + ARGSITES      # every process-start object an instance must not reach
 STRUCT_PROPS = (xs.SubElementProperty, xs.ContainerProperty)
 LIST_PROPS = (xs.SubElementListProperty, xs.ContainerListProperty)
+TEXT_LIST_PROPS = (xs.SubElementTextListProperty, xs.NodeTextListProperty, xs.NodeTextQNameListProperty,
+                   xs._AttributeListBase)  # noqa: SLF001
 
 
 def direct_site_classes():
@@ -307,36 +315,43 @@ class Case:
         return ['skip']
 
     def lists(self, obj, path, out, depth=0):
-        """list objects reachable from an instance: (path of field indices, list)"""
+        """list objects reachable from an instance: (path of field indices, list, owner, member name, descriptor)"""
         if depth > 4:
             return
         if X.is_struct(obj):
-            for k, raw in enumerate(X.raw_fields(obj)):
+            for k, ((name, p), raw) in enumerate(zip(X.class_props(type(obj)), X.raw_fields(obj))):
                 if isinstance(raw, list):
-                    out.append(([*path, k], raw))
+                    out.append(([*path, k], raw, obj, name, p))
                 if X.is_mutable(raw):
                     self.lists(raw, [*path, k], out, depth + 1)
         elif isinstance(obj, list):
             for k, e in enumerate(obj):
-                if isinstance(e, list):
-                    out.append(([*path, k], e))
-                if X.is_struct(e) or isinstance(e, list):
+                if X.is_struct(e):
                     self.lists(e, [*path, k], out, depth + 1)
 
     def do_mutate(self, r, sel, kind):
-        """IN-PLACE list operation through instance r: append (an immutable value) / pop / clear"""
+        """IN-PLACE list operation through instance r: append (an immutable, valid element) / pop / clear.
+        Appending is restricted to lists of immutable elements (text / handle-ref / attribute lists): the model's
+        MAppend stores an immutable value, and the library validates list elements when a member is re-assigned."""
         out = []
         self.lists(self.insts[r], [], out)
         if not out:
             return ['skip']
-        nonempty = [x for x in out if x[1]]
-        if kind != 0 and nonempty:
-            out = nonempty
-        path, lst = out[sel % len(out)]
         if kind == 0:
-            v = f'c12-appended-{self.rng.randrange(1000)}'
-            lst.append(v)
-            return ['mutate', r, path, 'append', self.intern(v)]
+            cand = [x for x in out if isinstance(x[4], TEXT_LIST_PROPS) and not any(X.is_mutable(e) for e in x[1])]
+            for i in range(len(cand)):
+                path, lst, owner, name, p = cand[(sel + i) % len(cand)]
+                try:
+                    vals = [v for v in self.gen.value(type(owner), name, p, 9) if not X.is_mutable(v)]
+                except Exception:  # noqa: BLE001
+                    vals = []
+                vals = vals or list(lst[:1])
+                if vals:
+                    lst.append(vals[0])
+                    return ['mutate', r, path, 'append', self.intern(vals[0])]
+            kind = 1 + sel % 2
+        nonempty = [x for x in out if x[1]]
+        path, lst = (nonempty or out)[sel % len(nonempty or out)][:2]
         if kind == 1:
             if lst:
                 lst.pop()
